@@ -66,6 +66,33 @@ def run(v, tier, seed, replay):
     if need - kinds:
         raise Infra("vacuity: event kinds never recorded: %s" % sorted(need - kinds))
     v.cov["protocol_events_validated"] = nev
+    # ---- the whole configuration travels with a move (module SolverCfg): every history of setters and moves replayed
+    nsc = 0
+    for decoy in ("TRUE", "FALSE"):
+        cfgp = os.path.join(vlib.BUILD, "C10_solvercfg_%s.cfg" % decoy)
+        with open(cfgp, "w") as f:
+            f.write("SPECIFICATION Spec\nCONSTANTS\n  MaxOps = %d\n  Decoy = %s\nINVARIANT LineageOK\nACTION_CONSTRAINT Emit\nCHECK_DEADLOCK FALSE\n" % (2 if tier == "quick" else 3, decoy))
+        rc_ = vlib.tlc("SolverCfg", cfgp, timeout=900, coverage=False)
+        vlib.tlc_ok(rc_, "SolverCfg")
+        if rc_.violated:
+            raise Infra("SolverCfg violates %s (model defect)" % rc_.violated)
+        ed = [e for e in rc_.edges if any(h[0] != "set" for h in e["hist"])]      # histories with at least one move
+        if len(ed) < 50:
+            raise Infra("SolverCfg exported only %d histories with a move" % len(ed))
+        cres, cfails = solver.cfg_replay(exe, ed)
+        for f_ in [x for x in cfails if x.startswith("CRASH:")]:
+            v.violation("solvercfg/crash", f_, None)
+        cfails = [x for x in cfails if not x.startswith("CRASH:")]
+        if cfails:
+            raise Infra("; ".join(cfails[:2]))
+        for i, what, detail in cres:
+            e = ed[i]
+            mv = [h[0] for h in e["hist"] if h[0] != "set"]
+            v.violation("solvercfg/%s/%s" % (mv[-1], what), "history %s (decoy object %s): %s" % (e["hist"], "present" if e["decoy"] else "absent", detail), {"hist": e["hist"], "decoy": e["decoy"], "cfg": e["cfg"]})
+        v.add("states", rc_.distinct); v.add("transitions", rc_.generated)
+        nsc += len(ed)
+    v.cov["configuration_histories_with_moves"] = nsc
+    ntr += nsc
     # ---- the repository's example programs as trace sources (hooks only, sources untouched)
     ex_names = ["RabiOscilations", "VacuumNeutrinoOscillations"] if tier == "quick" else ["RabiOscilations", "VacuumNeutrinoOscillations", "CollectiveNeutrinoOscillations"]
     ntr_ex, nev_ex = solver.example_traces(v, ex_names, 2500 if tier == "quick" else 20000)
